@@ -519,3 +519,26 @@ Lemma failed_solve_unchanged_l (o : oracle) (st : state) (e : errno) :
 Proof.
   intros H. destruct (solve_cases o st) as [A | [A | [A | A]]]; rewrite A in *; simpl in H; congruence.
 Qed.
+
+(* a computable sufficient condition for all_solves_fail (used for the non-vacuity examples):
+   at every solve of the history the count test is not met *)
+Fixpoint solves_deficient (st : state) (ops : list op) : bool :=
+  match ops with
+  | [] => true
+  | OpSolve :: rest =>
+    st_fvalid st && (0 <? st_freqs st) && count_deficient st && solves_deficient st rest
+  | x :: rest => solves_deficient (fst (step (fun _ _ _ => true) st x)) rest
+  end.
+
+Lemma solves_deficient_fail (o : oracle) (ops : list op) (st : state) :
+  solves_deficient st ops = true -> all_solves_fail o st ops.
+Proof.
+  revert st. induction ops as [| x ops IH]; intros st H; simpl; [exact I |].
+  destruct x; simpl in H.
+  - apply IH. exact H.
+  - apply andb_prop in H. destruct H as [H Hr]. apply andb_prop in H. destruct H as [H Hd].
+    apply andb_prop in H. destruct H as [Hv Hf]. apply Nat.ltb_lt in Hf.
+    rewrite (deficient_edom o st Hv Hf Hd). simpl. split; [discriminate | apply IH; exact Hr].
+  - apply IH. exact H.
+  - apply IH. exact H.
+Qed.
